@@ -3,9 +3,8 @@ CONSTANTS
   N = 8
   MaxSeq = 3
   QCap = 2
-  StrictReply = FALSE
+  StrictReply = TRUE
   Classes = {"plain", "clientAbandons"}
   EvictOldest = FALSE
 INVARIANTS TypeOK Serving TasksAlive NoHandlerDies
-PROPERTIES EveryRequestAnswered
 CHECK_DEADLOCK FALSE
